@@ -37,7 +37,7 @@ func init() {
 		Level: "exploration",
 		Rule: "per case one input fed to readers (FASTA, FASTQ, BED3/4/5/6/12, GFF): (a) random bytes enriched with newline/tab/#/>/@/+; (b) valid files from the C01/C02 generators under 1..3 mutations " +
 			"(delete/duplicate/empty/swap a column, numeric boundary tokens, strand/frame replacement, drop/duplicate a line, splice, byte flips, random truncation); (c) a catalogue of structurally invalid lines that must produce an error, embedded between valid lines; " +
-			"(d) truncation of small valid files at every byte offset. Oracle: no panic (recover + child exit status), every call returns a record or an error, first error/EOF within lines+1 calls, further calls still safe, hang = source at EOF and call not returning. " +
+			"(d) truncation of small valid files at every byte offset; one input in six is delivered by a source that fails with a non-EOF error at a random offset. Oracle: no panic (recover + child exit status), every call returns a record or an error, first error/EOF within lines+1 calls, further calls still safe, hang = source at EOF and call not returning. " +
 			"Non-trivial = at least one record or non-EOF error; distinct = (reader, outcome sequence, input hash)",
 		Batches: func(t string) int {
 			if t == "thorough" {
